@@ -144,6 +144,24 @@ fn corpus() -> Vec<RunCase> {
         // opcode 0xD with the feature off: exit status 1
         mk(0x3000, &[0xD440, 0xF025], &[], false),
         mk(0x3000, &[0xD440, 0xD080, 0xF025], &[], true),
+        // images loaded above user space: the first fetch is already outside [origin, 0xFE00)
+        mk(0xFE00, &[0xF025], &[], false),
+        mk(0xFE01, &[0xE002, 0xF022, 0xF025, 0x4F, 0x55, 0x54, 0], &[], false),
+        mk(0xFE10, &[0xE002, 0xF022, 0xF025, 0x4F, 0x55, 0x54, 0], &[], false),
+        mk(0xFF00, &[0xF021, 0xF025], &[], false),
+        mk(0xFFF0, &[0x1021, 0xF025], &[], true),
+        mk(0xFFFE, &[0x1021], &[], false),
+        // PUTS / PUTSP over a memory in which NO word has a zero low byte: the program fills every
+        // word outside itself with '#', then prints from `text`; exactly one pass over memory
+        // (65,536 characters, the last one being the word just below the start)
+        RunCase {
+            stack: false, minimal: true, fuel: 400_000, inp: vec![],
+            image: vec![0x3001, 0x2209, 0xE40A, 0x2608, 0x7280, 0x14A1, 0x16FF, 0x0BFC, 0xE004, 0xF022, 0xF025, 0x0023, 0xFFF3, 0x0040],
+        },
+        RunCase {
+            stack: false, minimal: false, fuel: 400_000, inp: vec![],
+            image: vec![0x3001, 0x2209, 0xE40A, 0x2608, 0x7280, 0x14A1, 0x16FF, 0x0BFC, 0xE004, 0xF024, 0xF025, 0x2323, 0xFFF3, 0x4040],
+        },
     ]
 }
 
